@@ -90,7 +90,7 @@ type Witness struct {
 	Cfg  string `json:"cfg"`
 	Seq  int    `json:"seq"`
 	Mode string `json:"mode"`
-	Ops  []Op   `json:"ops"`
+	Ops  []*Op  `json:"ops"`
 	At   string `json:"at,omitempty"`
 }
 
@@ -106,7 +106,12 @@ type Seq struct {
 	uni     *Universe
 	pre     *View
 	const0  *big.Int
-	ops     []Op // everything executed (or being executed), for the witness
+	ops     []*Op // everything executed (or being executed), for the witness
+	failed  bool
+	fails   []failure
+	quiet   bool
+	taint   map[string]bool // hostile input features among the accepted transactions (signature suffix)
+	hostile bool
 	reqID   uint64
 	shared0 map[string]bool // accounts that controlled more than one miner in the baseline state
 	dead    bool
@@ -115,11 +120,56 @@ type Seq struct {
 }
 
 func (s *Seq) witness(at string) Witness {
-	return Witness{Cfg: s.cfg, Seq: s.idx, Mode: s.mode, Ops: append([]Op{}, s.ops...), At: at}
+	w := Witness{Cfg: s.cfg, Seq: s.idx, Mode: s.mode, At: at}
+	for _, o := range s.ops {
+		c := *o
+		w.Ops = append(w.Ops, &c)
+	}
+	return w
 }
 
+type failure struct{ sig, what string }
+
+// fail collects a failed clause of the current block; flush reports the block.
 func (s *Seq) fail(sig, what string) {
-	s.r.Violation(sig, fmt.Sprintf("[%s seq %d, height %d] %s", s.cfg, s.idx, s.H, what), s.witness(what))
+	s.failed = true
+	s.fails = append(s.fails, failure{sig, what})
+}
+
+// flush reports the first failed clause of the block as the violation (clauses are evaluated root-cause
+// first: lookups, uniqueness, totals, escrow, conservation) and lists the others in its text.
+func (s *Seq) flush() {
+	if len(s.fails) == 0 || s.quiet {
+		s.fails = nil
+		return
+	}
+	f := s.fails[0]
+	sig := f.sig
+	// root-cause label: a hostile input accepted earlier in the sequence (only for clauses that do not carry a
+	// structural class of their own)
+	if !strings.Contains(sig, "-in-one-block") {
+		switch {
+		case s.taint["json-shaped-account"] && (strings.Contains(sig, "iterator-yields-un") || !s.taint["id-aliasing-hashed-registry-key"]):
+			sig += ":after-json-shaped-account"
+		case s.taint["id-aliasing-hashed-registry-key"]:
+			sig += ":after-id-aliasing-hashed-registry-key"
+		}
+	}
+	what := f.what
+	if n := len(s.fails) - 1; n > 0 {
+		seen := map[string]bool{f.sig: true}
+		var more []string
+		for _, x := range s.fails[1:] {
+			if !seen[x.sig] {
+				seen[x.sig] = true
+				more = append(more, x.sig)
+			}
+		}
+		what += fmt.Sprintf(" (+%d further failed clauses in this block: %s)", n, strings.Join(more, ", "))
+	}
+	s.r.Violation(sig, fmt.Sprintf("[%s seq %d, height %d] %s", s.cfg, s.idx, s.H, what), s.witness(f.what))
+	s.r.Count("violating_blocks", 1)
+	s.fails = nil
 }
 
 var baseRoot common.Hash // genesis + funded keys (harness set-up, committed once per process)
@@ -154,7 +204,7 @@ func commit(adb *account.AccountDB) common.Hash {
 }
 
 func newSeq(r *mon.Run, cfg string, idx int, mode string) *Seq {
-	s := &Seq{r: r, cfg: cfg, idx: idx, mode: mode, root: baseRoot, H: 10, ref: newRef(), uni: newUniverse(), shared0: map[string]bool{}}
+	s := &Seq{r: r, cfg: cfg, idx: idx, mode: mode, root: baseRoot, H: 10, ref: newRef(), uni: newUniverse(), shared0: map[string]bool{}, taint: map[string]bool{}}
 	s.fee = tokens("0.001") // Proposal026 is active in every configuration used here
 	u := s.uni
 	for _, k := range keys {
@@ -195,6 +245,7 @@ func newSeq(r *mon.Run, cfg string, idx int, mode string) *Seq {
 			s.shared0[hx(rec.Account)] = true
 		}
 	}
+	s.noteValidators()
 	v0, _ = takeView(baseRoot, u, []uint64{s.H}, s.H)
 	s.pre = v0
 	s.const0 = v0.conserved()
@@ -244,6 +295,51 @@ func (s *Seq) noteUniverse(op *Op) {
 	}
 	if op.Kind == "apply" || op.Kind == "change" {
 		u.addAcc(unhx(op.Account)) // includes the empty account
+	}
+}
+
+// aliased: the storage key sha^n(id) is also a key of an existing miner (ids chosen as hashes of other ids).
+func (s *Seq) aliased(id []byte, n int) bool {
+	k := sha(id, n)
+	for _, rec := range s.ref.recs {
+		for m := 0; m <= 3; m++ {
+			if bytes.Equal(k, sha(rec.ID, m)) {
+				return true
+			}
+		}
+	}
+	return false
+}
+
+func (s *Seq) noteValidators() {
+	for k, rec := range s.ref.recs {
+		if rec.Type == common.MinerTypeValidator {
+			s.uni.validators[k] = true
+		}
+	}
+}
+
+// noteTaint records hostile features of an ACCEPTED transaction; they only label the signature of a later
+// violation (root-cause class), they never suppress or create one.
+func (s *Seq) noteTaint(op *Op) {
+	if op.Kind == "apply" && op.ID != "" {
+		id := unhx(op.ID)
+		for other := range s.uni.ids {
+			o := unhx(other)
+			for n := 1; n <= 3; n++ {
+				if bytes.Equal(id, sha(o, n)) {
+					s.taint["id-aliasing-hashed-registry-key"] = true
+				}
+			}
+		}
+	}
+	if op.Kind == "apply" || op.Kind == "change" {
+		var probe struct {
+			Id string `json:"id"`
+		}
+		if a := unhx(op.Account); len(a) > 0 && a[0] == '{' && json.Unmarshal(a, &probe) == nil && probe.Id != "" {
+			s.taint["json-shaped-account"] = true
+		}
 	}
 }
 
@@ -308,6 +404,7 @@ func (s *Seq) runBlock(txOps []*Op, H uint64) {
 		if receipts[i].Status == types.ReceiptStatusSuccessful {
 			op.Result = "ok"
 			allRejected = false
+			s.noteTaint(op)
 			s.ref.accept(op, H, k.ID, k.Addr.Bytes())
 			r.Count("accepted_"+op.Kind, 1)
 			if op.Kind == "refund" || op.Kind == "change" {
@@ -320,6 +417,7 @@ func (s *Seq) runBlock(txOps []*Op, H uint64) {
 		r.Count("class_"+op.Kind+"_"+lastClass(op.Class)+"_"+op.Result, 1)
 		feeBy[k.Addr]++
 	}
+	s.noteValidators()
 	post, err := takeView(root, s.uni, []uint64{H, H + common.HeightAfterStake + 1}, H)
 	if err != nil {
 		r.Inconclusive("cannot read committed state: %v", err)
@@ -337,8 +435,42 @@ func (s *Seq) runBlock(txOps []*Op, H uint64) {
 	if allRejected {
 		s.judgeRejected(pre, post, H, txOps, feeBy)
 	}
+	s.flush()
 	s.ref.blockRefunds = map[common.Address]*big.Int{}
 	s.root, s.pre = root, post
+	if s.failed {
+		// continue from the state the node is in: it becomes the new baseline ("any registry state"),
+		// unless it is inconsistent in itself (then every later block would only repeat the report)
+		if len(s.taint) > 0 {
+			s.dead = true
+			return
+		}
+		s.resync(post)
+		s.failed, s.quiet = false, true
+		s.judge(post, post, H)
+		s.quiet, s.fails = false, nil
+		if s.failed {
+			s.dead = true
+		}
+		s.failed = false
+		r.Count("resyncs", 1)
+	}
+}
+
+// resync re-seeds the reference from the committed state after a reported violation.
+func (s *Seq) resync(v *View) {
+	s.ref = newRef()
+	s.ref.seedFrom(v)
+	s.shared0 = map[string]bool{}
+	for _, rec := range s.ref.live() {
+		s.uni.addID(rec.ID)
+		s.uni.addAcc(rec.Account)
+		if len(s.ref.byAccount(rec.Account)) > 1 {
+			s.shared0[hx(rec.Account)] = true
+		}
+	}
+	s.noteValidators()
+	s.const0 = v.conserved()
 }
 
 func lastClass(c string) string {
@@ -424,6 +556,22 @@ func (s *Seq) judge(pre, post *View, H uint64) {
 		}
 	}
 
+	// (1b) nothing derived from the id of a miner that does not exist (never applied, or removed) is left in the
+	// registry storage: record, stake, account binding, status
+	for _, id := range sortedKeys(u.ids) {
+		if ref.recs[id] != nil {
+			continue
+		}
+		raw := unhx(id)
+		for t := 0; t < 2; t++ {
+			for n, name := range []string{"record", "stake", "account binding", "status"} {
+				if v, ok := post.reg[t][string(sha(raw, n))]; ok && len(v) > 0 && !s.aliased(raw, n) {
+					s.fail("C20:registry:residue-of-absent-miner", fmt.Sprintf("registry (type %d) still holds the %s key of miner 0x%s (value 0x%s) although no such miner exists", t, name, id, hx(v)))
+				}
+			}
+		}
+	}
+
 	// (2) an account controls at most one miner (judged on the node's own records)
 	ctl := map[string][]string{}
 	for t := 0; t < 2; t++ {
@@ -434,7 +582,17 @@ func (s *Seq) judge(pre, post *View, H uint64) {
 	for a, ids := range ctl {
 		if len(ids) > 1 && !s.shared0[a] {
 			sort.Strings(ids)
-			s.fail("C20:account:controls-two-miners", fmt.Sprintf("account 0x%s controls %d miners: %s", a, len(ids), strings.Join(ids, ", ")))
+			sameBlock := 0
+			for _, rec := range ref.byAccount(unhx(a)) {
+				if rec.BoundAt == H {
+					sameBlock++
+				}
+			}
+			cls := ":bound-in-different-blocks"
+			if sameBlock >= 2 {
+				cls = ":both-bound-in-one-block"
+			}
+			s.fail("C20:account:controls-two-miners"+cls, fmt.Sprintf("account 0x%s controls %d miners: %s", a, len(ids), strings.Join(ids, ", ")))
 		}
 	}
 
@@ -491,6 +649,11 @@ func (s *Seq) judge(pre, post *View, H uint64) {
 	for a := range ref.blockRefunds {
 		accts[a] = true
 	}
+	escrowGap := new(big.Int)
+	escCls := ":single-account-refunded-in-the-block"
+	if len(ref.blockRefunds) >= 2 {
+		escCls = ":several-accounts-refunded-in-one-block"
+	}
 	for a := range accts {
 		want := pre.escrowOf(a)
 		if m := pre.escrow[H]; m != nil && m[a] != nil {
@@ -501,7 +664,8 @@ func (s *Seq) judge(pre, post *View, H uint64) {
 		}
 		r.Count("escrow_checks", 1)
 		if got := post.escrowOf(a); got.Cmp(want) != 0 {
-			s.fail("C20:escrow:differs-from-accepted-refunds", fmt.Sprintf("escrow scheduled for %s is %s wei, expected %s (before %s, matured at %d: %v, accepted refunds in this block %v)", a.GetHexString(), got, want, pre.escrowOf(a), H, pre.escrow[H][a], ref.blockRefunds[a]))
+			escrowGap.Add(escrowGap, new(big.Int).Sub(got, want))
+			s.fail("C20:escrow:differs-from-accepted-refunds"+escCls, fmt.Sprintf("escrow scheduled for %s is %s wei, expected %s (before %s, matured at %d: %v, accepted refunds to this account in this block %v; accounts refunded in this block: %d)", a.GetHexString(), got, want, pre.escrowOf(a), H, pre.escrow[H][a], ref.blockRefunds[a], len(ref.blockRefunds)))
 		}
 	}
 	if m := pre.escrow[H]; len(m) > 0 {
@@ -526,7 +690,11 @@ func (s *Seq) judge(pre, post *View, H uint64) {
 		if d.Sign() < 0 {
 			sig = "C20:conservation:total-decreased"
 		}
-		s.fail(sig, fmt.Sprintf("liquid %s + stake %s + escrow %s = %s wei, initial total %s (difference %s wei)", post.liquidTotal(), post.stakeTotal(), post.escrowTotal(), got, s.const0, d))
+		what := fmt.Sprintf("liquid %s + stake %s + escrow %s = %s wei, initial total %s (difference %s wei)", post.liquidTotal(), post.stakeTotal(), post.escrowTotal(), got, s.const0, d)
+		if escrowGap.Sign() != 0 && escrowGap.Cmp(d) == 0 {
+			what += " — exactly the escrow discrepancy of this block"
+		}
+		s.fail(sig, what)
 		s.const0 = got // report each break once
 	}
 	for k, n := range ref.stats {
@@ -702,15 +870,8 @@ func (s *Seq) nextHeight(want uint64) uint64 {
 }
 
 func (s *Seq) closeBlock(pending *[]*Op, H uint64) {
-	s.ops = append(s.ops, Op{Kind: "block", Height: H})
-	bi := len(s.ops) - 1
-	_ = bi
+	s.ops = append(s.ops, &Op{Kind: "block", Height: H})
 	s.runBlock(*pending, H)
-	// copy results into the witness log
-	j := len(s.ops) - 1 - len(*pending)
-	for i, op := range *pending {
-		s.ops[j+i] = *op
-	}
 	*pending = nil
 }
 
@@ -722,12 +883,13 @@ func runGenerated(r *mon.Run, cfg string, idx int) {
 		mode, p = "multi", []int{25, 40, 60}[rng.Intn(3)]
 	}
 	s := newSeq(r, cfg, idx, mode)
+	s.hostile = rng.Intn(100) < 25
 	g := &Gen{rng: rng, s: s}
 	n := 10 + rng.Intn(71)
 	var pending []*Op
 	for i := 0; i < n && !s.dead; i++ {
 		op := g.next()
-		s.ops = append(s.ops, op)
+		s.ops = append(s.ops, &op)
 		pending = append(pending, &op)
 		if rng.Intn(100) < p || i == n-1 {
 			want := s.H + 1 + uint64(rng.Intn(3))
@@ -764,11 +926,12 @@ func finishSeq(r *mon.Run, s *Seq) {
 	}
 }
 
-func stripResults(ops []Op) []Op {
+func stripResults(ops []*Op) []Op {
 	out := make([]Op, len(ops))
 	for i, o := range ops {
-		o.Result = ""
-		out[i] = o
+		c := *o
+		c.Result = ""
+		out[i] = c
 	}
 	return out
 }
@@ -778,7 +941,7 @@ func runRecorded(r *mon.Run, w Witness) {
 	s := newSeq(r, w.Cfg, w.Seq, w.Mode)
 	var pending []*Op
 	for i := range w.Ops {
-		op := w.Ops[i]
+		op := *w.Ops[i]
 		op.Result = ""
 		if s.dead {
 			break
@@ -787,7 +950,7 @@ func runRecorded(r *mon.Run, w Witness) {
 			s.closeBlock(&pending, op.Height)
 			continue
 		}
-		s.ops = append(s.ops, op)
+		s.ops = append(s.ops, &op)
 		pending = append(pending, &op)
 	}
 	finishSeq(r, s)
